@@ -1199,6 +1199,7 @@ class FiniteStateMachine:
                                                 SupvisorsStates.SHUTTING_DOWN],
                     SupvisorsStates.CONCILIATION: [SupvisorsStates.OFF,
                                                    SupvisorsStates.SYNCHRONIZATION,
+                                                   SupvisorsStates.ELECTION,
                                                    SupvisorsStates.OPERATION,
                                                    SupvisorsStates.RESTARTING,
                                                    SupvisorsStates.SHUTTING_DOWN],
